@@ -139,6 +139,68 @@ def axi_energy(field, um, vals, ngeo=None):
     return float((W * 2 * np.pi * R * reg.dV).sum())
 
 
+def axi_force(field, um, vals, ngeo=None):
+    """Oracle-side nodal forces of the revolved body by virtual work: r[a, i] = sum_q (P_iJ dh_a/dX_J + delta_ir P_33 h_a / R) 2 pi R dV with
+    the oracle's own deformation gradient, radius and weighting (the stress comes from the material law, which C03 judges)."""
+    reg = field.region
+    cells = reg.mesh.cells
+    q, c = reg.dV.shape
+    n = reg.h.shape[0]
+    ngeo = n if ngeo is None else ngeo
+    h = np.broadcast_to(reg.h, (n, q, c))
+    dh = np.broadcast_to(reg.dhdX, (n, 2, q, c))
+    X = reg.mesh.points
+    R = np.einsum("ca,aqc->qc", X[:, 1][cells[:, :ngeo]], h[:ngeo])
+    ur = np.einsum("ca,aqc->qc", vals[:, 1][cells], h)
+    F = np.zeros((3, 3, q, c))
+    F[:2, :2] = np.einsum("cai,ajqc->ijqc", vals[cells], dh)
+    F[0, 0] += 1
+    F[1, 1] += 1
+    F[2, 2] = 1 + ur / R
+    P = um.gradient([F, None])[0]
+    w = 2 * np.pi * R * reg.dV
+    contrib = np.einsum("ijqc,ajqc,qc->cai", P[:2, :2], dh, w)
+    contrib[:, :, 1] += np.einsum("qc,aqc,qc->ca", P[2, 2] / R, h, w)
+    r = np.zeros_like(vals, dtype=float)
+    np.add.at(r, cells, contrib)
+    return r
+
+
+def case_axisymmetric_axis(fam, rep):
+    """A solid body of revolution that touches the axis, its mesh graded towards the axis (innermost quadrature points at 1e-4 .. 1e-3 of
+    the outer radius) in several length units; u_r vanishes on the axis. Forces against the oracle's own virtual work."""
+    def fn(run):
+        import felupe as fem
+        rng = rng_for(run.seed, "C10", "axi-axis", fam, rep)
+        Rmax = [1.0, 40.0, 0.02, 1.0][rep % 4]
+        L = Rmax * float(rng.uniform(0.5, 2.0))
+        power = [4, 3, 5][rep % 3]
+        base = fem.Rectangle(a=(0.0, 0.0), b=(L, 1.0), n=(3, 7))
+        pts = base.points.copy()
+        pts[:, 1] = Rmax * pts[:, 1] ** power
+        mesh = gen.FAMILIES[fam]["conv"](fem.Mesh(pts, base.cells, base.cell_type))
+        reg = gen.make_region(fam, mesh)
+        field = fem.FieldContainer([fem.FieldAxisymmetric(reg, dim=2)])
+        X = mesh.points
+        z, rho = X[:, 0] / L, X[:, 1] / Rmax
+        a = rng.uniform(-1, 1, (2, 3))
+        hmin = float(np.min(X[mesh.cells].max(1) - X[mesh.cells].min(1)))
+        v0 = np.stack([0.1 * Rmax * (a[0, 0] * z + a[0, 1] * rho + a[0, 2] * z * rho),
+                       0.15 * X[:, 1] * (a[1, 0] + a[1, 1] * z + a[1, 2] * rho)], 1)
+        v0 += 0.01 * hmin * rng.uniform(-1, 1, v0.shape) * np.stack([np.ones(len(X)), (X[:, 1] > 0).astype(float)], 1)
+        field[0].values[:] = v0
+        um = [fem.NeoHooke(mu=1.0, bulk=3.0), fem.NeoHookeCompressible(mu=1.0, lmbda=2.0)][rep % 2]
+        ng = 3 if fam == "triangleMINI" else None
+        r = fem.SolidBody(um, field).assemble.vector(field).toarray().reshape(v0.shape)
+        own = axi_force(field, um, v0, ng)
+        Rq = np.einsum("ca,aqc->qc", X[:, 1][mesh.cells[:, :(ng or reg.h.shape[0])]], np.broadcast_to(reg.h, (reg.h.shape[0],) + reg.dV.shape)[:(ng or reg.h.shape[0])])
+        run.compare("reduced.axisymmetric", "family=%s clause=force-is-virtual-work body=touches-axis" % fam, maxabs(r - own) / max(maxabs(own), 1e-300), 1e-10,
+                    "axisymmetric nodal forces on a %s body that touches the axis (mesh graded towards it) are not the virtual work of the stresses over the "
+                    "revolved volume" % fam, unit="axisymmetric:axis:" + fam, config=(fam, "axis", rep % 4, rep % 3),
+                    sample={"family": fam, "outer_radius": Rmax, "innermost_quadrature_radius_over_outer": float(Rq.min() / Rmax)})
+    return fn
+
+
 def case_axisymmetric_energy(fam, rep):
     def fn(run):
         import felupe as fem
@@ -161,6 +223,10 @@ def case_axisymmetric_energy(fam, rep):
                 d[k] = h
                 g[k] = (axi_energy(field, um, v0 + d.reshape(v0.shape), ng) - axi_energy(field, um, v0 - d.reshape(v0.shape), ng)) / (2 * h)
             errs.append(maxabs(r - g) / max(maxabs(g), 1e-300))
+        own = axi_force(field, um, v0, ng).ravel()
+        run.compare("reduced.axisymmetric", "family=%s clause=force-is-virtual-work" % fam, maxabs(r - own) / max(maxabs(own), 1e-300), 1e-10,
+                    "axisymmetric nodal forces on %s are not the virtual work of the stresses over the revolved volume" % fam,
+                    unit="axisymmetric:virtual-work:" + fam, config=(fam, "vw", rep % 2))
         if errs[1] > 2e-6 and errs[1] < 0.35 * errs[0]:
             run.skip("reduced.axisymmetric", "finite-difference error still shrinking")
             return
@@ -403,6 +469,9 @@ def cases(tier, seed):
     for fam in ("quad", "quad8", "quad9", "triangle", "triangle6", "triangleMINI"):
         for rep in range(reps):
             out.append(("axi-energy:%s:%d" % (fam, rep), case_axisymmetric_energy(fam, rep)))
+    for fam in ("quad", "quad8", "quad9", "triangle", "triangle6", "triangleMINI"):
+        for rep in range(2 if tier == "quick" else 12):
+            out.append(("axi-axis:%s:%d" % (fam, rep + (seed % 12)), case_axisymmetric_axis(fam, rep + (seed % 12))))
     for rep in range(1 if tier == "quick" else 4):
         out.append(("axi-revolve:%d" % rep, case_axisymmetric_revolve(rep)))
     for kind, fam in (("3d", "hexahedron"), ("planestrain", "quad"), ("axisymmetric", "quad"), ("3d", "hexahedron20"), ("planestrain", "quad8")):
@@ -420,12 +489,12 @@ def cases(tier, seed):
 SPEC = {
     "required_units": ["planestrain:force:quad", "planestrain:force:quad8", "planestrain:force:quad9", "planestrain:stiffness:quad",
                        "planestrain:stiffness:quad8", "planestrain:stiffness:quad9", "axisymmetric:energy:quad", "axisymmetric:energy:quad8",
-                       "axisymmetric:energy:triangle", "axisymmetric:energy:triangleMINI", "axisymmetric:revolve-convergence", "axisymmetric:revolve-extrapolated", "planestrain:mixed:force", "planestrain:mixed:stiffness", "condensed:state-force:3d", "condensed:state-force:planestrain", "condensed:state-force:axisymmetric", "condensed:u:3d", "condensed:u:planestrain",
+                       "axisymmetric:energy:triangle", "axisymmetric:energy:triangleMINI", "axisymmetric:axis:quad", "axisymmetric:axis:quad8", "axisymmetric:axis:triangle", "axisymmetric:axis:triangleMINI", "axisymmetric:virtual-work:quad", "axisymmetric:virtual-work:triangle6", "axisymmetric:revolve-convergence", "axisymmetric:revolve-extrapolated", "planestrain:mixed:force", "planestrain:mixed:stiffness", "condensed:state-force:3d", "condensed:state-force:planestrain", "condensed:state-force:axisymmetric", "condensed:u:3d", "condensed:u:planestrain",
                        "condensed:u:axisymmetric", "condensed:p:3d", "condensed:J:3d", "condensed:bulk:1", "condensed:bulk:2", "condensed:bulk:3", "condensed:state:3d", "condensed:restart:3d", "condensed:restart:axisymmetric",
                        "planestrain:parallel", "condensed:variant:NeoHooke|ThreeFieldVariation", "condensed:variant:tt.yeoh|NearlyIncompressible",
                        "uniform:vector", "uniform:matrix", "uniform:vector:axisymmetric", "uniform:matrix:axisymmetric", "uniform:constant:linear-elastic-matrix", "uniform:constant:mass", "uniform:constant:body-force"],
     "rule": ("quad4/8/9 ~ hex8/20/27 pairs on undistorted / in-plane distorted / affine meshes with smooth random in-plane states and 4 "
-             "materials; axisymmetric forces vs central differences of the oracle-side revolved strain energy on 5 families and vs 360-degree "
+             "materials; axisymmetric forces vs central differences of the oracle-side revolved strain energy and vs the oracle's own virtual work on 6 families (bodies off the axis, and solid bodies touching the axis with meshes graded towards it in three length units) and vs 360-degree "
              "revolved 3D models with 8/16/32 sectors; condensed vs explicit three-field solutions for bulk 10..5000 in 3D / plane strain / "
              "axisymmetric; uniform vs general regions on random grid sizes; a configuration is distinct by (pair or family, geometry, "
              "material, clause)"),
